@@ -51,6 +51,7 @@ type Bound struct {
 	Verdict Verdict
 	Values  map[string]any // parameter name -> typed JSON value (absent optional without default: key missing)
 	Absent  map[string]bool
+	Loose   map[string]bool // the value may also be seen as absent / zero (empty value that the spec allows)
 	Reasons []string
 }
 
@@ -125,7 +126,7 @@ func (d *Doc) Consumes(op *spec.Operation) []string {
 
 // Bind evaluates a request against an operation of the document.
 func (d *Doc) Bind(req *Request) Bound {
-	res := Bound{Values: map[string]any{}, Absent: map[string]bool{}}
+	res := Bound{Values: map[string]any{}, Absent: map[string]bool{}, Loose: map[string]bool{}}
 	op, params, err := d.Operation(req.Method, req.Path)
 	if err != nil {
 		res.Verdict = Reject
@@ -225,6 +226,9 @@ func (d *Doc) Bind(req *Request) Bound {
 				continue
 			}
 			v, verdict, why := bindSimple(d, &p, raws)
+			if verdict == Accept && why == "loose" {
+				res.Loose[p.Name] = true
+			}
 			switch verdict {
 			case Reject:
 				reject("%s %s: %s", p.In, p.Name, why)
@@ -279,6 +283,11 @@ func bindSimple(d *Doc, p *spec.Parameter, raws []string) (any, Verdict, string)
 				if p.Required && !p.AllowEmptyValue {
 					return nil, Reject, "empty value for required array"
 				}
+				if p.AllowEmptyValue && (p.In == "query" || p.In == "formData") && p.MinItems == nil {
+					// the spec explicitly allows the empty value: the request is valid, the handler may
+					// see an empty list or nothing
+					return []any{}, Accept, "loose"
+				}
 				return nil, Unspecified, "empty value for array"
 			}
 			parts = strings.Split(raws[0], sepFor(p.CollectionFormat))
@@ -294,15 +303,20 @@ func bindSimple(d *Doc, p *spec.Parameter, raws []string) (any, Verdict, string)
 	}
 	raw := raws[0]
 	if raw == "" {
+		plain := p.MinLength == nil && p.Pattern == "" && len(p.Enum) == 0 && p.Format == ""
+		allowEmpty := p.AllowEmptyValue && (p.In == "query" || p.In == "formData")
 		if p.Type == "string" {
-			if p.Required && !p.AllowEmptyValue {
+			if p.Required && !allowEmpty {
 				return nil, Reject, "empty value for required string"
 			}
-			if !p.Required || p.AllowEmptyValue {
-				return nil, Unspecified, "empty optional/allowEmpty string"
+			if plain {
+				// an empty string the spec allows (allowEmptyValue, or an optional unconstrained
+				// string): the request is valid; the handler may see "" or nothing
+				return "", Accept, "loose"
 			}
+			return nil, Unspecified, "empty value for a constrained string"
 		}
-		if p.Required && !p.AllowEmptyValue {
+		if p.Required && !allowEmpty {
 			return nil, Reject, "empty value for required parameter"
 		}
 		return nil, Unspecified, "empty value for non-string"
